@@ -406,7 +406,7 @@ ACTIVE = ["C01", "C02", "C03", "C04", "C05", "C09", "C11", "C13", "C14", "C15", 
 
 # Obligations whose harness exists but which did not finish under the tier caps on the unchanged tree
 # (DESIGN.md section 11.2): they are NOT registered - no tier runs them, no property counts them.
-UNREGISTERED = {"D4o", "D5", "D6.refuse", "D6.pass", "D7.mono", "D7.follow", "D11"}
+UNREGISTERED = {"P3.string_len2", "D4o", "D5", "D6.refuse", "D6.pass", "D7.mono", "D7.follow", "D11"}
 for _o in OBLIGATIONS:
     if _o["id"] in UNREGISTERED or _o["id"].startswith("D3.") or _o["id"].startswith("D4."):
         _o["tiers_unregistered"] = _o["tiers"]
